@@ -217,7 +217,12 @@ func runByz(e *Env) {
 					continue
 				}
 				v, b := genValue(tp, c.t, proto)
-				if garbageCells && tp.Chance(1, 3) {
+				if garbageCells && (c.t.ID == cqlspec.TTuple || c.t.ID == cqlspec.TUDT) && len(b) >= 4 && tp.Chance(1, 4) {
+					// the length of the first field of a tuple / UDT value, poisoned
+					b = append([]byte{}, b...)
+					binary.BigEndian.PutUint32(b, []uint32{0x7fffffff, 0x7ffffffc, 0x7ffffffd, 0x80000000, 0xfffffffe, 0x7ffffffe, uint32(len(b)), uint32(len(b)) - 3}[tp.Next(8)])
+					k.Fault("byz.garbage-field-length")
+				} else if garbageCells && tp.Chance(1, 3) {
 					// a well-framed cell whose bytes are not a value of its type
 					switch tp.Next(4) {
 					case 0:
